@@ -404,7 +404,14 @@ def tag_end(text, i):
 
 def classify(kind, xml):
     if kind == "header":
-        return "hdr+from" if re.search(r'\sfrom="', xml) else "hdr"
+        # the scenarios configure example.com (client, user@example.com[/res]) or comp.example.com (component)
+        to = re.search(r'\sto="([^"]*)"', xml)
+        if not to or to.group(1) not in ("example.com", "comp.example.com"):
+            return "hdr!to(%s)" % (to.group(1) if to else "-")
+        fr = re.search(r'\sfrom="([^"]*)"', xml)
+        if fr and fr.group(1) != "user@example.com":
+            return "hdr!from(%s)" % fr.group(1)
+        return "hdr+from" if fr else "hdr"
     if kind == "close":
         return "close"
     if kind != "elem":
@@ -423,6 +430,8 @@ def classify(kind, xml):
         return "compress"
     if name == "iq":
         if '_xmpp_bind1' in head:
+            if "<resource>" in xml and "<resource>res</resource>" not in xml:
+                return "bind!res"
             return "bind+res" if "<resource>" in xml else "bind"
         if '_xmpp_session1' in head:
             return "session"
@@ -850,7 +859,9 @@ class Observer:
                         self.viol["C13"].append("set_flags(%d) accepted but reads back %d" % (w, rb))
                     if (rc == 0) != (not conflict and 0 <= w < 256):
                         self.viol["C13"].append("set_flags(%d): rc=%d but conflict=%s" % (w, rc, bool(conflict)))
-                flags = rb
+                # what the user configured is the accepted word itself (the readback is judged above, not believed)
+                if rc == 0 and not (att is not None and att["alive"]):
+                    flags = w
             elif k == "connect":
                 rc = None
                 for t in seg:
@@ -924,6 +935,8 @@ class Observer:
         # raw connections: reading starts in the iteration after the one that reported RAW_CONNECT
         if "E:raw_connect" in seg:
             att["reading"] = True
+        if "TLS:start=ok" in seg:
+            att["tls_up"] = True
         # 4. notifications
         seen_disc = False
         up = att["connects"] > 0 or att["rawc"]
@@ -988,6 +1001,14 @@ class Observer:
             self.viol["C03"].append("session requested without an offer")
         if w in ("enable", "enable+resume", "resume") and not of["sm"]:
             self.viol["C03"].append("%s requested without a stream-management offer" % w)
+        if w.startswith("hdr!"):
+            self.viol["C03"].append("stream header does not name the configured domain / address: %s" % w)
+        if w == "bind!res":
+            self.viol["C03"].append("bind request asks for another resource than the configured one")
+        # (a <starttls/> still queued when an unsolicited <proceed/> brings TLS up is written through TLS: that is the
+        #  server's reordering, not a request of the client; a request answering features received under TLS is)
+        if w == "starttls" and tls and att.get("feat_under_tls"):
+            self.viol["C03"].append("STARTTLS requested in answer to features received on a stream that TLS already protects (not the RFC 6120 order)")
         if w == "hdr+from" and not tls:
             self.viol["C03"].append("stream header reveals the user's address on an unprotected stream")
         if w == "user" and not (att["connects"] > 0 or att["rawc"]):
@@ -1031,6 +1052,8 @@ class Observer:
             # a top-level element of the open stream
             f = it.f
             if it.ns == "streams" and it.name == "features":
+                if att.get("tls_up"):
+                    att["feat_under_tls"] = True
                 of = att["offers"]
                 of["tls"] |= bool(f["starttls"]); of["mechs"] |= set(f["mechs"]); of["zlib"] |= bool(f["zlib"])
                 of["bind"] |= bool(f["bind"]); of["session"] |= bool(f["session"]); of["sm"] |= bool(f["sm"])
@@ -1306,8 +1329,10 @@ def reconnect_scenarios(rng, thorough=False):
         for j, b in enumerate(POSTS):
             if i == j:
                 continue
-            for fl in (0, 64):
+            for fl in (0, 64, 32):
                 if fl == 64 and not (a.get("zlib") or b.get("zlib")):
+                    continue
+                if fl == 32 and not (a.get("sm") or b.get("sm")):
                     continue
                 pa, pb = pres[(i + j) % 3], pres[(i + j + 1) % 3]
                 end1 = "close" if (i + j) % 2 else "reset"
@@ -1545,13 +1570,20 @@ def policy_scenarios(rng, thorough=False):
                         chunks += [[PROCEED], ["h1"], [features(False, mechs)]]
                     elif answer == "tlsnewfail":
                         tlsnew = 0
-                    chunks += [[challenge("scram_ok")], [simple("sasl", "failure")], [challenge("digest_ok")], [simple("sasl", "failure")], [SUCCESS], ["h1"], [features(bind=True)]]
-                    ops = base_ops(flags=fl, cert=int("EXTERNAL" in mechs and rng.random() < .5), tlsnew=tlsnew, verdicts=verdicts) + \
-                        [("connect", "client", ["accept"]), ("run", None)] + runs(*chunks) + [("clock", 15000), ("run", None), ("run", None), ("is",), ("release",)]
-                    S.append(Scenario(ops, "policy:%d:%d:%s:%s" % (fl, offer_tls, "+".join(mechs), answer)))
+                    # two ways for the server to answer the SASL chain: challenge-then-failure for the mechanisms that have a
+                    # challenge, and failure at once (the way EXTERNAL / ANONYMOUS / PLAIN are refused)
+                    for chain in ("challenge", "refuse"):
+                        if chain == "challenge":
+                            tail = [[challenge("scram_ok")], [simple("sasl", "failure")], [challenge("digest_ok")], [simple("sasl", "failure")], [SUCCESS], ["h1"], [features(bind=True)]]
+                        else:
+                            tail = [[simple("sasl", "failure")], [simple("sasl", "failure")], [simple("sasl", "failure")], [SUCCESS], ["h1"], [features(bind=True)]]
+                        cert = int("EXTERNAL" in mechs and (chain == "refuse" or rng.random() < .5))
+                        ops = base_ops(flags=fl, cert=cert, tlsnew=tlsnew, verdicts=verdicts) + \
+                            [("connect", "client", ["accept"]), ("run", None)] + runs(*(chunks + tail)) + [("clock", 15000), ("run", None), ("run", None), ("is",), ("release",)]
+                        S.append(Scenario(ops, "policy:%d:%d:%s:%s:%s" % (fl, offer_tls, "+".join(mechs), answer, chain)))
     if not thorough:
         rng.shuffle(S)
-        S = S[:380]
+        S = S[:640]
     return S
 
 
